@@ -200,10 +200,20 @@ fn check(rep: &Reporter, cnt: &Counters, st: &(AtomicU64, AtomicU64, AtomicU64),
             match (want, got) {
                 (Ok(w), Ok(g)) => {
                     st.2.fetch_add(1, Ordering::Relaxed);
+                    // labels: kind and position in the output (instruction index / offset in the segment)
+                    let lab = |a: &crate::pipe::Asm| -> Vec<(String, bool, usize)> {
+                        let mut v: Vec<(String, bool, usize)> = a.labels.iter().map(|(k, l)| (k.clone(), l.is_code, l.map)).collect();
+                        v.sort();
+                        v
+                    };
                     if w.code != g.code {
                         viol("expansion", format!("{:?}", w.code), format!("{:?}", g.code));
                     } else if w.fns != g.fns || w.labels.len() != g.labels.len() {
                         viol("expansion-maps", format!("{:?} {:?}", w.fns, w.labels.keys()), format!("{:?} {:?}", g.fns, g.labels.keys()));
+                    } else if w.data != g.data {
+                        viol("expansion-data", format!("{:?}", w.data), format!("{:?}", g.data));
+                    } else if lab(&w) != lab(&g) {
+                        viol("expansion-labels", format!("{:?}", lab(&w)), format!("{:?}", lab(&g)));
                     }
                     cnt.outcome("expanded");
                 }
@@ -333,6 +343,28 @@ fn family_special() -> Vec<Case> {
     out.push(Case { family: "name-spaces", defs: vec![d("again", &["l"], "dec cx jnz l")], data: String::new(), code: "start:\nmov cx, 3\nagain:\nagain(again)\n".into() });
     out.push(Case { family: "name-spaces", defs: vec![d("go", &["l"], "jmp l"), d("count", &["l"], "dec cx go(count) inc l")], data: String::new(), code: "start:\ncount(ax)\ncount:\nhlt\n".into() });
     out.push(Case { family: "name-spaces", defs: vec![d("f", &["p"], "call p")], data: String::new(), code: "def f {\ninc ax\n}\nstart:\nf(f)\n".into() });
+    // macros that produce DATA definitions (the grammar wants all plain data before the first macro definition, so
+    // such uses always follow the plain data): the data image is that of the pasted text, and a segment that the
+    // produced definitions push past 64 KiB is refused like the pasted text
+    for (data, code) in [
+        ("x: db 2\n", "tbl(1)\ntbl(3)\nstart:\nmov al, byte x\n"),
+        ("x: db 2\ny: dw 4\n", "pair(7, 513)\npair(1, 2)\ntbl(9)\nstart:\nmov al, byte x\nmov bx, offset y\n"),
+        ("set 0x10\nx: dw 4\n", "tbl(1)\nblk(3)\npair(3, 4)\nstart:\nmov ax, word x\n"),
+        ("x: db [30000]\n", "blk(30000)\nstart:\nmov al, byte x\n"),
+        ("x: db [30000]\n", "blk(30000)\nblk(30000)\nstart:\nmov al, byte x\n"),
+        ("x: db 1\n", "blk(30000)\nblk(30000)\nblk(30000)\nstart:\nmov al, byte x\n"),
+        ("x: db 1\n", "blk(65535)\ntbl(1)\nstart:\nmov al, byte x\n"),
+        ("x: db 1\n", "blk(65534)\ntbl(1)\nstart:\nmov al, byte x\n"),
+        ("", "wrap(tbl, 5)\nstart:\nhlt\n"),
+        ("x: db [65000]\n", "wrap(blk, 300)\nstart:\nhlt\n"),
+    ] {
+        out.push(Case {
+            family: "data-macros",
+            defs: vec![d("tbl", &["v"], "db v"), d("pair", &["a", "b"], "db a dw b"), d("blk", &["n"], "db [n]"), d("wrap", &["f", "v"], "f(v) f(v)")],
+            data: data.to_string(),
+            code: code.to_string(),
+        });
+    }
     // parameter names are case-sensitive like every other name: an identifier in the body that differs from a
     // parameter only in case (a label, a data label, a procedure) is not the parameter
     out.push(Case { family: "parameter-case", defs: vec![d("br", &["t"], "jz t jmp T")], data: String::new(), code: "start:\nxor ax, ax\nbr(near_)\nnear_:\ninc cx\nT:\ninc dx\n".into() });
